@@ -1,4 +1,5 @@
 import AranyaV.Proofs.TypeFrag
+import AranyaV.Proofs.FoldBind
 namespace AranyaV.Lang
 open AranyaV.Gen.Lang
 
@@ -21,8 +22,10 @@ theorem ROk.mono {α : Type} {P P' : α → Prop} {Q Q' : Val → Prop} {r : Res
 theorem fits_bool_ty {b : Bool} {t : Ty} (h : (Val.bool b).fitsType t = true) : t = .bool := by
   cases t <;> simp [Val.fitsType] at h; rfl
 
-theorem checked_fits (r : Int) : (checked r).fitsType (.optional .int) = true := by
-  unfold checked; split <;> rfl
+theorem checked_fit {p : Program} (r : Int) : Fit p (checked r) (.optional .int) := by
+  unfold checked; split
+  · exact fit_some_mk fit_int_mk
+  · exact fit_none_mk
 
 theorem isBuiltin_cases {f : Nat} (h : isBuiltin f = true) : f = 0 ∨ f = 1 ∨ f = 2 ∨ f = 3 := by
   match f, h with
@@ -32,25 +35,25 @@ theorem isBuiltin_cases {f : Nat} (h : isBuiltin f = true) : f = 0 ∨ f = 1 ∨
   | 3, _ => simp
   | n + 4, h => simp [isBuiltin, builtinInstr] at h
 
-theorem argsFit_two {vs : List Val} (h : ArgsFit vs [.int, .int]) : ∃ a b, vs = [.int a, .int b] := by
+theorem argsFit_two {p : Program} {vs : List Val} (h : ArgsFit p vs [.int, .int]) : ∃ a b, vs = [.int a, .int b] := by
   match vs, h with
   | [v, w], h =>
     simp only [ArgsFit] at h
-    obtain ⟨a, rfl⟩ := fits_int h.1
-    obtain ⟨b, rfl⟩ := fits_int h.2.1
+    obtain ⟨a, rfl⟩ := fit_int h.1
+    obtain ⟨b, rfl⟩ := fit_int h.2.1
     exact ⟨a, b, rfl⟩
   | [], h => simp [ArgsFit] at h
   | [_], h => simp [ArgsFit] at h
   | _ :: _ :: _ :: _, h => simp [ArgsFit] at h
 
-theorem argsFit_length : ∀ {vs : List Val} {ts : List Ty}, ArgsFit vs ts → vs.length = ts.length
+theorem argsFit_length : ∀ {vs : List Val} {ts : List Ty}, ArgsFit p vs ts → vs.length = ts.length
   | [], [], _ => rfl
   | [], _ :: _, h => by simp [ArgsFit] at h
   | _ :: _, [], h => by simp [ArgsFit] at h
   | _ :: vs, _ :: ts, h => by simp only [ArgsFit] at h; simp [argsFit_length h.2]
 
-theorem argsFit_snoc : ∀ {vs : List Val} {ts : List Ty} {v : Val} {t : Ty}, ArgsFit vs ts → v.fitsType t = true →
-    ArgsFit (vs ++ [v]) (ts ++ [t])
+theorem argsFit_snoc : ∀ {vs : List Val} {ts : List Ty} {v : Val} {t : Ty}, ArgsFit p vs ts → Fit p v t →
+    ArgsFit p (vs ++ [v]) (ts ++ [t])
   | [], [], _, _, _, hv => by simp [ArgsFit, hv]
   | [], _ :: _, _, _, h, _ => by simp [ArgsFit] at h
   | _ :: _, [], _, _, h, _ => by simp [ArgsFit] at h
@@ -59,7 +62,7 @@ theorem argsFit_snoc : ∀ {vs : List Val} {ts : List Ty} {v : Val} {t : Ty}, Ar
     simp only [List.cons_append, ArgsFit]
     exact ⟨h.1, argsFit_snoc h.2 hv⟩
 
-theorem argsFit_reverse : ∀ {vs : List Val} {ts : List Ty}, ArgsFit vs ts → ArgsFit vs.reverse ts.reverse
+theorem argsFit_reverse : ∀ {vs : List Val} {ts : List Ty}, ArgsFit p vs ts → ArgsFit p vs.reverse ts.reverse
   | [], [], _ => by simp [ArgsFit]
   | [], _ :: _, h => by simp [ArgsFit] at h
   | _ :: _, [], h => by simp [ArgsFit] at h
@@ -68,15 +71,10 @@ theorem argsFit_reverse : ∀ {vs : List Val} {ts : List Ty}, ArgsFit vs ts → 
     simp only [List.reverse_cons]
     exact argsFit_snoc (argsFit_reverse h.2) h.1
 
-theorem foldl_bind_none {α β : Type} (f : α → β → Option α) : ∀ (l : List β),
-    l.foldl (fun acc q => acc.bind (fun s => f s q)) none = none
-  | [] => rfl
-  | _ :: l => by simp [List.foldl_cons, foldl_bind_none f l]
-
-theorem bind_params {cx : LCtx} {p : Program} (hg : cx.globals = []) (hpg : p.globals = []) :
-    ∀ (qs : List (Nat × Ty)) (ws : List Val) (sc : Scopes) (env : Env) (sc0 : Scopes), EnvOk sc env →
+theorem bind_params {cx : LCtx} {p : Program} (hG : GOk cx p) :
+    ∀ (qs : List (Nat × Ty)) (ws : List Val) (sc : Scopes) (env : Env) (sc0 : Scopes), EnvOk p sc env →
     qs.foldl (fun acc (q : Nat × Ty) => acc.bind (fun s => scopeAdd cx s q.1 q.2)) (some sc) = some sc0 →
-    ArgsFit ws (qs.map (·.2)) → ∃ env0, bindParams p env ((qs.map (·.1)).zip ws) = some env0 ∧ EnvOk sc0 env0
+    ArgsFit p ws (qs.map (·.2)) → ∃ env0, bindParams p env ((qs.map (·.1)).zip ws) = some env0 ∧ EnvOk p sc0 env0
   | [], [], sc, env, sc0, henv, hf, _ => by
     simp only [List.foldl_nil, Option.some.injEq] at hf; subst hf
     exact ⟨env, by simp [bindParams], henv⟩
@@ -89,8 +87,8 @@ theorem bind_params {cx : LCtx} {p : Program} (hg : cx.globals = []) (hpg : p.gl
     | none => rw [ha, foldl_bind_none] at hf; cases hf
     | some sc1 =>
       rw [ha] at hf
-      obtain ⟨env1, hb, henv1⟩ := scopeAdd_bindVar (p := p) hg hpg henv ha h.1
-      obtain ⟨env0, hbp, henv0⟩ := bind_params hg hpg qs ws sc1 env1 sc0 henv1 hf h.2
+      obtain ⟨env1, hb, henv1⟩ := scopeAdd_bindVar (p := p) hG henv ha h.1
+      obtain ⟨env0, hbp, henv0⟩ := bind_params hG qs ws sc1 env1 sc0 henv1 hf h.2
       exact ⟨env0, by simp [bindParams, hb, hbp], henv0⟩
 
 theorem lowerStmt_tail {cx : LCtx} {b : List (Nat × Ty)} {sc : Scopes} {s s' : Stmt} {sc' : Scopes}
@@ -124,21 +122,507 @@ theorem lowerStmts_tail {cx : LCtx} : ∀ (ss : List Stmt) {b : List (Nat × Ty)
       obtain ⟨⟨o, r⟩, hr, _, rfl⟩ := h
       exact lowerStmts_tail ss hr
 
+theorem fit_struct {p : Program} {v : Val} {sn : Nat} (h : Fit p v (.struct sn)) :
+    ∃ fs, v = .struct sn fs ∧ (∃ d, p.structDef sn = some d ∧ ∀ q ∈ d, ∃ w, getField fs q.1 = some w ∧ w.fitsType q.2 = true) ∧
+      wfFields p fs := by
+  obtain ⟨h1, h2⟩ := h
+  cases v <;> simp [Val.fitsType] at h1
+  subst h1
+  simp only [Val.wf] at h2
+  exact ⟨_, rfl, h2.1, h2.2⟩
+
+theorem findTy_of_nodup : ∀ {d : List (Nat × Ty)} {q : Nat × Ty}, (d.map (·.1)).Nodup → q ∈ d → d.find? (·.1 == q.1) = some q
+  | [], _, _, h => by cases h
+  | x :: d, q, hn, h => by
+    simp only [List.map_cons, List.nodup_cons] at hn
+    rcases List.mem_cons.mp h with rfl | h'
+    · simp
+    · have hne : (x.1 == q.1) = false := by
+        cases hx : (x.1 == q.1)
+        · rfl
+        · exfalso; apply hn.1; rw [beq_iff_eq.mp hx]; exact List.mem_map.mpr ⟨q, h', rfl⟩
+      simp only [List.find?_cons, hne]
+      exact findTy_of_nodup hn.2 h'
+
+theorem lowerFields_keys {cx : LCtx} {sc : Scopes} {d : List (Nat × Ty)} : ∀ {fs fs' : List (Nat × Expr)},
+    lowerFields cx sc d fs = some fs' → fs'.map (·.1) = fs.map (·.1)
+  | [], fs', h => by simp only [lowerFields, Option.some.injEq] at h; subst h; rfl
+  | (k, e) :: rest, fs', h => by
+    simp only [lowerFields] at h
+    repeat' (split at h)
+    all_goals (try (cases h; done))
+    simp only [Option.map_eq_some_iff] at h
+    obtain ⟨r, hr, rfl⟩ := h
+    simp [lowerFields_keys hr]
+
+
+/-! ## match patterns -/
+
+theorem lit_not_var {cx : LCtx} {sc : Scopes} {e e' : Expr} {t : Ty} (hlit : isLiteral e = true)
+    (h : lowerExpr cx sc e = some (e', t)) : ∀ x, e' ≠ .var x := by
+  intro x hx; subst hx
+  cases e <;> simp [isLiteral] at hlit
+  all_goals (inv_low h; all_goals (simp [Option.map_eq_some_iff] at h))
+
+theorem lit_src_binding {v : Expr} (h : isLiteral v = true) : bindingOf v = none := by
+  cases v <;> first | rfl | (rename_i e; cases e <;> first | rfl | simp [isLiteral] at h)
+
+theorem lit_binding {cx : LCtx} {sc : Scopes} {v v' : Expr} {t : Ty} (hlit : isLiteral v = true)
+    (h : lowerExpr cx sc v = some (v', t)) : bindingOf v' = none := by
+  cases v <;> simp [isLiteral] at hlit
+  case some e | ok e | err e =>
+    inv_low h
+    simp only [Option.some.injEq, Prod.mk.injEq] at h
+    obtain ⟨rfl, rfl⟩ := h
+    rename_i e1 t1 he
+    have := lit_not_var hlit he
+    cases e1 <;> first | rfl | (exact absurd rfl (this _))
+  all_goals (inv_low h; all_goals (try simp only [Option.map_eq_some_iff, Option.some.injEq, Prod.mk.injEq] at h))
+  all_goals first
+    | (obtain ⟨rfl, _⟩ := h; rfl)
+    | (obtain ⟨_, _, rfl, _⟩ := h; rfl)
+
+theorem fit_result_ok {p : Program} {w : Val} {a b : Ty} (h : Fit p (.ok w) (.result a b)) : Fit p w a :=
+  ⟨by simpa [Val.fitsType] using h.1, by simpa [Val.wf] using h.2⟩
+theorem fit_result_err {p : Program} {w : Val} {a b : Ty} (h : Fit p (.err w) (.result a b)) : Fit p w b :=
+  ⟨by simpa [Val.fitsType] using h.1, by simpa [Val.wf] using h.2⟩
+theorem fit_optional_some {p : Program} {w : Val} {a : Ty} (h : Fit p (.some w) (.optional a)) : Fit p w a :=
+  ⟨by simpa [Val.fitsType] using h.1, by simpa [Val.wf] using h.2⟩
+
+/-- an arm all of whose patterns are literals: no bindings, the scrutinee type is only refined -/
+theorem patVals_lits {cx : LCtx} {p : Program} {sc : Scopes} : ∀ (vs : List Expr) (st stF : Ty) (vs' : List Expr) (bs : List (Nat × Ty)),
+    vs.all (fun v => (bindingOf v).isNone) = true → lowerPatValsE cx sc st vs = some (stF, vs', bs) →
+    bs = [] ∧ firstBinding vs' = none ∧ ∀ v, Fit p v st → Fit p v stF
+  | [], st, stF, vs', bs, _, h => by
+    simp only [lowerPatValsE, Option.some.injEq, Prod.mk.injEq] at h
+    obtain ⟨rfl, rfl, rfl⟩ := h
+    exact ⟨rfl, rfl, fun _ h => h⟩
+  | v :: vs, st, stF, vs', bs, hall, h => by
+    simp only [List.all_cons, Bool.and_eq_true] at hall
+    simp only [lowerPatValsE] at h
+    split at h
+    · rename_i hlit
+      split at h
+      · cases h
+      · rename_i v' vt hv
+        split at h
+        · cases h
+        · rename_i st' hu
+          simp only [Option.map_eq_some_iff] at h
+          obtain ⟨⟨s1, o1, b1⟩, hr, hq⟩ := h
+          simp only [Prod.mk.injEq] at hq
+          obtain ⟨rfl, rfl, rfl⟩ := hq
+          obtain ⟨hb, hfb, hmono⟩ := patVals_lits (p := p) vs st' s1 o1 b1 hall.2 hr
+          refine ⟨hb, ?_, fun x hx => hmono x ((fit_unify hu).1 hx)⟩
+          simp only [firstBinding, lit_binding hlit hv]; exact hfb
+    · split at h
+      all_goals first
+        | (cases h; done)
+        | (simp [bindingOf] at hall)
+
+
+/-- what a lowered arm pattern (of the fragment) looks like: either no binding at all, or exactly
+one binding pattern whose payload type is known -/
+theorem patVals_shape {cx : LCtx} {p : Program} {sc : Scopes} {vs : List Expr} {st stF : Ty} {vs' : List Expr}
+    {bs : List (Nat × Ty)} (hfrag : (decide (vs.length ≤ 1) || vs.all (fun v => (bindingOf v).isNone)) = true)
+    (h : lowerPatValsE cx sc st vs = some (stF, vs', bs)) :
+    (bs = [] ∧ firstBinding vs' = none ∧ ∀ v, Fit p v st → Fit p v stF) ∨
+    (∃ pe w x T, vs' = [pe] ∧ bindingOf pe = some (w, x) ∧ bs = [(x, T)] ∧ stF = st ∧
+      ∀ v, Fit p v st → isWrap w v = true → ∃ inner, unwrap w v = some inner ∧ Fit p inner T) := by
+  by_cases hall : vs.all (fun v => (bindingOf v).isNone) = true
+  · exact Or.inl (patVals_lits vs st stF vs' bs hall h)
+  · simp only [hall, Bool.or_false, decide_eq_true_eq] at hfrag
+    match vs, hfrag, hall, h with
+    | [], _, hall, _ => simp at hall
+    | [v], _, hall, h =>
+      simp only [lowerPatValsE] at h
+      split at h
+      · rename_i hlit
+        -- a literal has no binding: contradiction with `hall`
+        exfalso; apply hall
+        simp only [List.all_cons, List.all_nil, Bool.and_true, lit_src_binding hlit, Option.isNone_none]
+      · split at h
+        all_goals (try (cases h; done))
+        all_goals (
+          simp only [lowerPatValsE, Option.map_some, Option.some.injEq, Prod.mk.injEq] at h
+          obtain ⟨rfl, rfl, rfl⟩ := h
+          refine Or.inr ⟨_, _, _, _, rfl, rfl, rfl, rfl, ?_⟩
+          intro v hv hw
+          cases v <;> simp [isWrap] at hw
+          first
+            | exact ⟨_, rfl, fit_result_ok hv⟩
+            | exact ⟨_, rfl, fit_result_err hv⟩
+            | exact ⟨_, rfl, fit_optional_some hv⟩)
+    | _ :: _ :: _, hlen, _, _ => simp at hlen
+
+theorem snd_mv {cx : LCtx} {p : Program} {n : Nat} (ih : Snd cx p n) :
+    ∀ rt sc st vs stF vs' bs env log v, fragArgs vs = true → lowerPatValsE (cx.withRet rt) sc st vs = some (stF, vs', bs) →
+    rt.neverFree = true → EnvOk p sc env → ROk (fun (_ : Bool) => True) (FitV p rt) (matchVals p (n + 1) env log v vs') := by
+  intro rt sc st vs stF vs' bs env log v hf hl hrt henv
+  cases vs with
+  | nil =>
+    simp only [lowerPatValsE, Option.some.injEq, Prod.mk.injEq] at hl
+    obtain ⟨_, rfl, _⟩ := hl
+    simp [matchVals, ROk]
+  | cons pe rest =>
+    simp only [fragArgs, Bool.and_eq_true] at hf
+    simp only [lowerPatValsE] at hl
+    split at hl
+    · split at hl
+      · cases hl
+      · rename_i pe' vt hpe
+        split at hl
+        · cases hl
+        · rename_i st' hu
+          simp only [Option.map_eq_some_iff] at hl
+          obtain ⟨⟨s1, o1, b1⟩, hr, hq⟩ := hl
+          simp only [Prod.mk.injEq] at hq
+          obtain ⟨rfl, rfl, rfl⟩ := hq
+          simp only [matchVals]
+          cases hb : bindingOf pe' with
+          | some wx =>
+            obtain ⟨w, x⟩ := wx
+            simp only
+            by_cases hw : isWrap w v = true
+            · simp only [hw, if_true, ROk]
+            · simp only [hw, Bool.false_eq_true, if_false]
+              exact ih.mv rt sc st' rest s1 o1 b1 env log v hf.2 hr hrt henv
+          | none =>
+            simp only
+            have ihe := ih.e rt sc pe pe' vt env log hf.1 hpe hrt henv
+            res_cases ihe of evalExpr _ _ _ _ _
+            rename_i lit l
+            by_cases hbq : v.beq lit = true
+            · simp only [hbq, if_true]
+            · simp only [hbq, Bool.false_eq_true, if_false]
+              exact ih.mv rt sc st' rest s1 o1 b1 env l v hf.2 hr hrt henv
+    · split at hl
+      all_goals (try (cases hl; done))
+      all_goals (
+        simp only [Option.map_eq_some_iff] at hl
+        obtain ⟨⟨s1, o1, b1⟩, hr, hq⟩ := hl
+        simp only [Prod.mk.injEq] at hq
+        obtain ⟨rfl, rfl, rfl⟩ := hq
+        simp only [matchVals, bindingOf]
+        generalize isWrap _ v = bw
+        cases bw
+        · simp only [Bool.false_eq_true, if_false]
+          exact ih.mv rt sc _ rest s1 o1 b1 env log v hf.2 hr hrt henv
+        · simp only [if_true, ROk])
+
+theorem endsDefaultP_cons_values {vs : List Expr} {rest : List Pat} (h : endsDefaultP (.values vs :: rest) = true) :
+    endsDefaultP rest = true := by
+  cases rest with
+  | nil => simp [endsDefaultP] at h
+  | cons r rs => simpa [endsDefaultP] using h
+
+theorem snd_sel {cx : LCtx} {p : Program} {n : Nat} (ih : Snd cx p n) :
+    ∀ rt sc st pats pats' env log v k, PatsLow (cx.withRet rt) sc st pats pats' → endsDefaultP pats = true →
+    rt.neverFree = true → EnvOk p sc env →
+    ROk (fun j => ∃ i pat, j = k + i ∧ pats'[i]? = some pat ∧ BindOk v pat) (FitV p rt) (selectArm p (n + 1) env log v pats' k) := by
+  intro rt sc st pats pats' env log v k hlow hend hrt henv
+  cases hlow with
+  | nil => simp [endsDefaultP] at hend
+  | @cons _ st' pat pat' bs rest rest' hpat hfp hrest =>
+    cases pat with
+    | default =>
+      simp only [lowerPat, Option.some.injEq, Prod.mk.injEq] at hpat
+      obtain ⟨_, rfl, _⟩ := hpat
+      simp only [selectArm, ROk]
+      exact ⟨0, .default, rfl, rfl, trivial⟩
+    | values vs =>
+      simp only [lowerPat, Option.map_eq_some_iff] at hpat
+      obtain ⟨⟨s1, vs', b1⟩, hpv, hq⟩ := hpat
+      simp only [Prod.mk.injEq] at hq
+      obtain ⟨rfl, rfl, rfl⟩ := hq
+      simp only [fragPat, Bool.and_eq_true] at hfp
+      have hend' := endsDefaultP_cons_values hend
+      have hshift : ∀ r : Res Nat,
+          ROk (fun j => ∃ i pat, j = (k + 1) + i ∧ rest'[i]? = some pat ∧ BindOk v pat) (FitV p rt) r →
+          ROk (fun j => ∃ i pat, j = k + i ∧ (Pat.values vs' :: rest')[i]? = some pat ∧ BindOk v pat) (FitV p rt) r := by
+        intro r hr
+        refine hr.mono ?_ (fun _ h => h)
+        rintro j ⟨i, pat, rfl, hi, hb⟩
+        exact ⟨i + 1, pat, by omega, by simpa using hi, hb⟩
+      simp only [selectArm]
+      rcases patVals_shape (p := p) hfp.2 hpv with ⟨_, hfb, _⟩ | ⟨pe, w, x, T, rfl, hbo, _, _, _⟩
+      · have ihm := ih.mv rt sc st vs s1 vs' b1 env log v hfp.1 hpv hrt henv
+        res_cases ihm of matchVals _ _ _ _ _ _
+        rename_i b l
+        cases b
+        · simp only []
+          exact hshift _ (ih.sel rt sc s1 rest rest' env l v (k + 1) hrest hend' hrt henv)
+        · simp only [ROk]
+          exact ⟨0, .values vs', rfl, rfl, by intro w x hwx; rw [hfb] at hwx; cases hwx⟩
+      · cases n with
+        | zero => simp [matchVals, ROk]
+        | succ m =>
+          simp only [matchVals, hbo]
+          by_cases hw : isWrap w v = true
+          · simp only [hw, if_true, ROk]
+            refine ⟨0, .values [pe], rfl, rfl, ?_⟩
+            intro w' x' hwx
+            simp only [firstBinding, hbo, Option.some.injEq, Prod.mk.injEq] at hwx
+            obtain ⟨rfl, rfl⟩ := hwx; exact hw
+          · simp only [hw, Bool.false_eq_true, if_false]
+            cases m with
+            | zero => simp [matchVals, ROk]
+            | succ m' =>
+              simp only [matchVals]
+              exact hshift _ (ih.sel rt sc s1 rest rest' env log v (k + 1) hrest hend' hrt henv)
+
+
+/-! ## match arms -/
+
+theorem endsDefaultE_P : ∀ (arms : List (Pat × Expr)), endsDefaultE arms = true → endsDefaultP (arms.map (·.1)) = true
+  | [], h => by simp [endsDefaultE] at h
+  | [(.default, _)], _ => rfl
+  | [(.values _, _)], h => by simp [endsDefaultE] at h
+  | (.default, _) :: b :: rest, h => by
+    simp only [endsDefaultE] at h; simp only [List.map_cons, endsDefaultP]; exact endsDefaultE_P (b :: rest) h
+  | (.values _, _) :: b :: rest, h => by
+    simp only [endsDefaultE] at h; simp only [List.map_cons, endsDefaultP]; exact endsDefaultE_P (b :: rest) h
+
+theorem endsDefaultS_P : ∀ (arms : List (Pat × List Stmt)), endsDefaultS arms = true → endsDefaultP (arms.map (·.1)) = true
+  | [], h => by simp [endsDefaultS] at h
+  | [(.default, _)], _ => rfl
+  | [(.values _, _)], h => by simp [endsDefaultS] at h
+  | (.default, _) :: b :: rest, h => by
+    simp only [endsDefaultS] at h; simp only [List.map_cons, endsDefaultP]; exact endsDefaultS_P (b :: rest) h
+  | (.values _, _) :: b :: rest, h => by
+    simp only [endsDefaultS] at h; simp only [List.map_cons, endsDefaultP]; exact endsDefaultS_P (b :: rest) h
+
+theorem lowerPat_mono {cx : LCtx} {p : Program} {sc : Scopes} {st st' : Ty} {pat pat' : Pat} {bs : List (Nat × Ty)}
+    (h : lowerPat cx sc st pat = some (st', pat', bs)) (hf : fragPat pat = true) : ∀ v, Fit p v st → Fit p v st' := by
+  cases pat with
+  | default =>
+    simp only [lowerPat, Option.some.injEq, Prod.mk.injEq] at h
+    obtain ⟨rfl, _, _⟩ := h; exact fun _ h => h
+  | values vs =>
+    simp only [lowerPat, Option.map_eq_some_iff] at h
+    obtain ⟨⟨s1, vs', b1⟩, hpv, hq⟩ := h
+    simp only [Prod.mk.injEq] at hq
+    obtain ⟨rfl, rfl, rfl⟩ := hq
+    simp only [fragPat, Bool.and_eq_true] at hf
+    rcases patVals_shape (p := p) hf.2 hpv with ⟨_, _, hm⟩ | ⟨_, _, _, _, _, _, _, rfl, _⟩
+    · exact hm
+    · exact fun _ h => h
+
+/-- bind the selected arm's pattern: the run-time scope matches the scope the body was lowered in -/
+theorem bindArm_ok {cx : LCtx} {p : Program} (hG : GOk cx p) {sc sc' : Scopes} {env : Env} {st st' : Ty} {pat pat' : Pat}
+    {bs : List (Nat × Ty)} {v : Val}
+    (h : lowerPat cx sc st pat = some (st', pat', bs)) (hf : fragPat pat = true)
+    (hsc : bs.foldl (fun acc (b : Nat × Ty) => acc.bind (fun s => scopeAdd cx s b.1 b.2)) (some ([] :: sc)) = some sc')
+    (hv : Fit p v st) (hb : BindOk v pat') (henv : EnvOk p sc env) :
+    ∃ env', bindArm p ([] :: env) v pat' = some env' ∧ EnvOk p sc' env' := by
+  have henv0 : EnvOk p ([] :: sc) ([] :: env) := by simp only [EnvOk, BlockOk]; exact ⟨trivial, henv⟩
+  cases pat with
+  | default =>
+    simp only [lowerPat, Option.some.injEq, Prod.mk.injEq] at h
+    obtain ⟨_, rfl, rfl⟩ := h
+    simp only [List.foldl_nil, Option.some.injEq] at hsc; subst hsc
+    exact ⟨_, rfl, henv0⟩
+  | values vs =>
+    simp only [lowerPat, Option.map_eq_some_iff] at h
+    obtain ⟨⟨s1, vs', b1⟩, hpv, hq⟩ := h
+    simp only [Prod.mk.injEq] at hq
+    obtain ⟨rfl, rfl, rfl⟩ := hq
+    simp only [fragPat, Bool.and_eq_true] at hf
+    rcases patVals_shape (p := p) hf.2 hpv with ⟨rfl, hfb, _⟩ | ⟨pe, w, x, T, rfl, hbo, rfl, rfl, hun⟩
+    · simp only [List.foldl_nil, Option.some.injEq] at hsc; subst hsc
+      exact ⟨_, by simp [bindArm, hfb], henv0⟩
+    · simp only [List.foldl_cons, List.foldl_nil, Option.bind_some] at hsc
+      have hfb : firstBinding [pe] = some (w, x) := by simp [firstBinding, hbo]
+      obtain ⟨inner, hu, hfit⟩ := hun v hv (hb w x hfb)
+      obtain ⟨env', hbv, henv'⟩ := scopeAdd_bindVar (p := p) hG henv0 hsc hfit
+      exact ⟨env', by simp [bindArm, hfb, hu, hbv], henv'⟩
+
+theorem armsE_patsLow {cx : LCtx} {sc : Scopes} : ∀ (arms : List (Pat × Expr)) (st : Ty) (ty : Option Ty) (stF : Ty)
+    (tyF : Option Ty) (arms' : List (Pat × Expr)), lowerArmsE cx sc st ty arms = some (stF, tyF, arms') →
+    fragArmsE arms = true → PatsLow cx sc st (arms.map (·.1)) (arms'.map (·.1))
+  | [], st, ty, stF, tyF, arms', h, _ => by
+    simp only [lowerArmsE, Option.some.injEq, Prod.mk.injEq] at h
+    obtain ⟨_, _, rfl⟩ := h; exact .nil _
+  | (pat, body) :: rest, st, ty, stF, tyF, arms', h, hf => by
+    simp only [lowerArmsE] at h
+    repeat' (split at h)
+    all_goals (try (cases h; done))
+    all_goals (
+      simp only [Option.map_eq_some_iff] at h
+      obtain ⟨⟨s1, r1, o1⟩, hr, hq⟩ := h
+      simp only [Prod.mk.injEq] at hq
+      obtain ⟨_, _, rfl⟩ := hq
+      simp only [fragArmsE, Bool.and_eq_true] at hf
+      exact .cons ‹lowerPat cx sc st pat = some _› hf.1.1 (armsE_patsLow rest _ _ _ _ _ hr hf.2))
+
+theorem armsS_patsLow {cx : LCtx} {sc : Scopes} : ∀ (arms : List (Pat × List Stmt)) (st stF : Ty)
+    (arms' : List (Pat × List Stmt)), lowerArmsS cx sc st arms = some (stF, arms') →
+    fragArmsS arms = true → PatsLow cx sc st (arms.map (·.1)) (arms'.map (·.1))
+  | [], st, stF, arms', h, _ => by
+    simp only [lowerArmsS, Option.some.injEq, Prod.mk.injEq] at h
+    obtain ⟨_, rfl⟩ := h; exact .nil _
+  | (pat, body) :: rest, st, stF, arms', h, hf => by
+    simp only [lowerArmsS] at h
+    repeat' (split at h)
+    all_goals (try (cases h; done))
+    all_goals (
+      simp only [Option.map_eq_some_iff] at h
+      obtain ⟨⟨s1, o1⟩, hr, hq⟩ := h
+      simp only [Prod.mk.injEq] at hq
+      obtain ⟨_, rfl⟩ := hq
+      simp only [fragArmsS, Bool.and_eq_true] at hf
+      exact .cons ‹lowerPat cx sc st pat = some _› hf.1.1 (armsS_patsLow rest _ _ _ hr hf.2))
+
+theorem armsE_ty_mono {cx : LCtx} {p : Program} {sc : Scopes} : ∀ (arms : List (Pat × Expr)) (st : Ty) (t : Ty) (stF : Ty)
+    (tyF : Option Ty) (arms' : List (Pat × Expr)), lowerArmsE cx sc st (some t) arms = some (stF, tyF, arms') →
+    ∃ tF, tyF = some tF ∧ ∀ v, Fit p v t → Fit p v tF
+  | [], st, t, stF, tyF, arms', h => by
+    simp only [lowerArmsE, Option.some.injEq, Prod.mk.injEq] at h
+    obtain ⟨_, rfl, _⟩ := h; exact ⟨t, rfl, fun _ h => h⟩
+  | (pat, body) :: rest, st, t, stF, tyF, arms', h => by
+    simp only [lowerArmsE] at h
+    split at h
+    · cases h
+    split at h
+    · cases h
+    split at h
+    · cases h
+    split at h
+    · cases h
+    rename_i t2 hu
+    simp only [Option.map_eq_some_iff] at h
+    obtain ⟨⟨s1, r1, o1⟩, hr, hq⟩ := h
+    simp only [Prod.mk.injEq] at hq
+    obtain ⟨_, rfl, _⟩ := hq
+    obtain ⟨tF, htF, hm⟩ := armsE_ty_mono (p := p) rest _ t2 _ _ _ hr
+    exact ⟨tF, htF, fun v hv => hm v ((fit_unify hu).1 hv)⟩
+
+/-- what lowering established about arm `i` of a match expression -/
+theorem armsE_get {cx : LCtx} {p : Program} {sc : Scopes} : ∀ (arms : List (Pat × Expr)) (st : Ty) (ty : Option Ty) (stF : Ty)
+    (tyF : Option Ty) (arms' : List (Pat × Expr)) (i : Nat) (pat' : Pat) (body' : Expr),
+    lowerArmsE cx sc st ty arms = some (stF, tyF, arms') → fragArmsE arms = true → arms'[i]? = some (pat', body') →
+    ∃ pat body sti sti' bs sc' bt, lowerPat cx sc sti pat = some (sti', pat', bs) ∧ fragPat pat = true ∧ fragE body = true ∧
+      (∀ v, Fit p v st → Fit p v sti) ∧
+      bs.foldl (fun acc (b : Nat × Ty) => acc.bind (fun s => scopeAdd cx s b.1 b.2)) (some ([] :: sc)) = some sc' ∧
+      lowerExpr cx sc' body = some (body', bt) ∧ ∃ tF, tyF = some tF ∧ ∀ v, Fit p v bt → Fit p v tF
+  | [], st, ty, stF, tyF, arms', i, pat', body', h, _, hi => by
+    simp only [lowerArmsE, Option.some.injEq, Prod.mk.injEq] at h
+    obtain ⟨_, _, rfl⟩ := h; simp at hi
+  | (pat, body) :: rest, st, ty, stF, tyF, arms', i, pat', body', h, hf, hi => by
+    simp only [lowerArmsE] at h
+    split at h
+    · cases h
+    rename_i st1 pat1 bs hpat
+    split at h
+    · cases h
+    rename_i sc' hsc
+    split at h
+    · cases h
+    rename_i body1 bt hbody
+    split at h
+    · cases h
+    rename_i t2 ht2
+    simp only [Option.map_eq_some_iff] at h
+    obtain ⟨⟨s1, r1, o1⟩, hr, hq⟩ := h
+    simp only [Prod.mk.injEq] at hq
+    obtain ⟨rfl, rfl, rfl⟩ := hq
+    simp only [fragArmsE, Bool.and_eq_true] at hf
+    cases i with
+    | zero =>
+      simp only [List.getElem?_cons_zero, Option.some.injEq, Prod.mk.injEq] at hi
+      obtain ⟨rfl, rfl⟩ := hi
+      obtain ⟨tF, htF, hm⟩ := armsE_ty_mono (p := p) rest _ t2 _ _ _ hr
+      refine ⟨pat, body, st, st1, bs, sc', bt, hpat, hf.1.1, hf.1.2, fun _ h => h, hsc, hbody, tF, htF, ?_⟩
+      intro v hv
+      apply hm
+      cases ty with
+      | none => simp only [Option.some.injEq] at ht2; subst ht2; exact hv
+      | some t0 => exact (fit_unify ht2).2 hv
+    | succ i =>
+      simp only [List.getElem?_cons_succ] at hi
+      obtain ⟨pat0, body0, sti, sti', bs0, sc0, bt0, h1, h2, h3, h4, h5, h6, h7⟩ :=
+        armsE_get (p := p) rest st1 (some t2) _ _ _ i pat' body' hr hf.2 hi
+      exact ⟨pat0, body0, sti, sti', bs0, sc0, bt0, h1, h2, h3,
+        fun v hv => h4 v (lowerPat_mono hpat hf.1.1 v hv), h5, h6, h7⟩
+
+
+theorem scopeAdd_tail {cx : LCtx} {b : List (Nat × Ty)} {sc sc' : Scopes} {x : Nat} {t : Ty}
+    (h : scopeAdd cx (b :: sc) x t = some sc') : ∃ b', sc' = b' :: sc := by
+  unfold scopeAdd at h
+  split at h
+  · cases h
+  split at h
+  · cases h
+  simp only [Option.some.injEq] at h; subst h; exact ⟨_, rfl⟩
+
+theorem scopeAdd_fold_tail {cx : LCtx} : ∀ (bs : List (Nat × Ty)) {b : List (Nat × Ty)} {sc sc' : Scopes},
+    bs.foldl (fun acc (q : Nat × Ty) => acc.bind (fun s => scopeAdd cx s q.1 q.2)) (some (b :: sc)) = some sc' →
+    ∃ b', sc' = b' :: sc
+  | [], b, sc, sc', h => by simp only [List.foldl_nil, Option.some.injEq] at h; exact ⟨b, h.symm⟩
+  | q :: bs, b, sc, sc', h => by
+    simp only [List.foldl_cons, Option.bind_some] at h
+    cases ha : scopeAdd cx (b :: sc) q.1 q.2 with
+    | none => rw [ha, foldl_bind_none] at h; cases h
+    | some sc1 =>
+      rw [ha] at h
+      obtain ⟨b1, rfl⟩ := scopeAdd_tail ha
+      exact scopeAdd_fold_tail bs h
+
+/-- what lowering established about arm `i` of a match statement -/
+theorem armsS_get {cx : LCtx} {p : Program} {sc : Scopes} : ∀ (arms : List (Pat × List Stmt)) (st stF : Ty)
+    (arms' : List (Pat × List Stmt)) (i : Nat) (pat' : Pat) (body' : List Stmt),
+    lowerArmsS cx sc st arms = some (stF, arms') → fragArmsS arms = true → arms'[i]? = some (pat', body') →
+    ∃ pat body sti sti' bs sc' scB, lowerPat cx sc sti pat = some (sti', pat', bs) ∧ fragPat pat = true ∧ fragSs body = true ∧
+      (∀ v, Fit p v st → Fit p v sti) ∧
+      bs.foldl (fun acc (b : Nat × Ty) => acc.bind (fun s => scopeAdd cx s b.1 b.2)) (some ([] :: sc)) = some sc' ∧
+      lowerStmts cx sc' body = some (body', scB)
+  | [], st, stF, arms', i, pat', body', h, _, hi => by
+    simp only [lowerArmsS, Option.some.injEq, Prod.mk.injEq] at h
+    obtain ⟨_, rfl⟩ := h; simp at hi
+  | (pat, body) :: rest, st, stF, arms', i, pat', body', h, hf, hi => by
+    simp only [lowerArmsS] at h
+    split at h
+    · cases h
+    rename_i st1 pat1 bs hpat
+    split at h
+    · cases h
+    rename_i sc' hsc
+    split at h
+    · cases h
+    rename_i body1 scB hbody
+    simp only [Option.map_eq_some_iff] at h
+    obtain ⟨⟨s1, o1⟩, hr, hq⟩ := h
+    simp only [Prod.mk.injEq] at hq
+    obtain ⟨rfl, rfl⟩ := hq
+    simp only [fragArmsS, Bool.and_eq_true] at hf
+    cases i with
+    | zero =>
+      simp only [List.getElem?_cons_zero, Option.some.injEq, Prod.mk.injEq] at hi
+      obtain ⟨rfl, rfl⟩ := hi
+      exact ⟨pat, body, st, st1, bs, sc', scB, hpat, hf.1.1, hf.1.2, fun _ h => h, hsc, hbody⟩
+    | succ i =>
+      simp only [List.getElem?_cons_succ] at hi
+      obtain ⟨pat0, body0, sti, sti', bs0, sc0, scB0, h1, h2, h3, h4, h5, h6⟩ :=
+        armsS_get (p := p) rest st1 _ _ i pat' body' hr hf.2 hi
+      exact ⟨pat0, body0, sti, sti', bs0, sc0, scB0, h1, h2, h3,
+        fun v hv => h4 v (lowerPat_mono hpat hf.1.1 v hv), h5, h6⟩
+
+
 theorem snd_e {cx : LCtx} {p : Program} {n : Nat} (hC : Ctx cx p) (ih : Snd cx p n) :
     ∀ rt sc e e' t env log, fragE e = true → lowerExpr (cx.withRet rt) sc e = some (e', t) → rt.neverFree = true →
-    EnvOk sc env → ROk (FitV t) (FitV rt) (evalExpr p (n + 1) env log e') := by
+    EnvOk p sc env → ROk (FitV p t) (FitV p rt) (evalExpr p (n + 1) env log e') := by
   intro rt sc e e' t env log hf hl hrt henv
   cases e with
   | unit | int _ | str _ | bool _ | none | todo =>
     inv_low hl
     simp only [Option.some.injEq, Prod.mk.injEq] at hl
     obtain ⟨rfl, rfl⟩ := hl
-    simp [evalExpr, ROk, FitV, Val.fitsType]
+    simp [evalExpr, ROk, FitV, Fit, Val.fitsType, Val.wf]
   | enumRef name variant val =>
     inv_low hl
     simp only [Option.map_eq_some_iff, Prod.mk.injEq] at hl
     obtain ⟨i, _, rfl, rfl⟩ := hl
-    simp [evalExpr, ROk, FitV, Val.fitsType]
+    simp [evalExpr, ROk, FitV, Fit, Val.fitsType, Val.wf]
   | var x =>
     simp only [lowerExpr, Option.map_eq_some_iff, Prod.mk.injEq] at hl
     obtain ⟨t', hg, rfl, rfl⟩ := hl
@@ -148,7 +632,10 @@ theorem snd_e {cx : LCtx} {p : Program} {n : Nat} (hC : Ctx cx p) (ih : Snd cx p
       simp only [Option.some.injEq] at hg; subst hg
       obtain ⟨v, hv, hfit⟩ := envOk_get henv hfs
       simp [evalExpr, lookupVar, hv, ROk, FitV, hfit]
-    · simp [LCtx.withRet, hC.hg] at hg
+    · rename_i hnone
+      have hl := envOk_none henv hnone
+      obtain ⟨v, hv, hfit⟩ := gOk_get (hC.hG.withRet rt) hg
+      simp [evalExpr, lookupVar, hl, hv, ROk, FitV, hfit]
   | some a | ok a | err a =>
     inv_low hl
     simp only [Option.some.injEq, Prod.mk.injEq] at hl
@@ -158,46 +645,47 @@ theorem snd_e {cx : LCtx} {p : Program} {n : Nat} (hC : Ctx cx p) (ih : Snd cx p
     have iha := ih.e rt sc a a' ta env log hf ha hrt henv
     simp only [evalExpr]
     res_cases iha of evalExpr _ _ _ _ _
+    all_goals first | exact fit_some_mk iha | exact fit_ok_mk iha | exact fit_err_mk iha
   | and a b =>
     inv_low hl
     simp only [Option.map_eq_some_iff, Prod.mk.injEq] at hl
     obtain ⟨u, hu, rfl, rfl⟩ := hl
     rename_i a' ta b' tb ha hb
     simp only [fragE, Bool.and_eq_true] at hf
-    have hfa := fitsType_unifyAs hu rfl
+    have hfa := fit_unifyAs (p := p) hu rfl
     have iha := ih.e rt sc a a' ta env log hf.1 ha hrt henv
     simp only [evalExpr]
     res_cases iha of evalExpr _ _ _ _ _
     rename_i v l
-    obtain ⟨b0, rfl⟩ := fits_bool (hfa.1 _ iha)
+    obtain ⟨b0, rfl⟩ := fit_bool (hfa.1 _ iha)
     cases b0
-    · simp only [Val.fitsType]
+    · exact fit_bool_mk
     · simp only []
       have ihb := ih.e rt sc b b' tb env l hf.2 hb hrt henv
       res_cases ihb of evalExpr _ _ _ _ _
       rename_i w l'
-      obtain ⟨b1, rfl⟩ := fits_bool (hfa.2 _ ihb)
-      simp only [Val.fitsType]
+      obtain ⟨b1, rfl⟩ := fit_bool (hfa.2 _ ihb)
+      exact fit_bool_mk
   | or a b =>
     inv_low hl
     simp only [Option.map_eq_some_iff, Prod.mk.injEq] at hl
     obtain ⟨u, hu, rfl, rfl⟩ := hl
     rename_i a' ta b' tb ha hb
     simp only [fragE, Bool.and_eq_true] at hf
-    have hfa := fitsType_unifyAs hu rfl
+    have hfa := fit_unifyAs (p := p) hu rfl
     have iha := ih.e rt sc a a' ta env log hf.1 ha hrt henv
     simp only [evalExpr]
     res_cases iha of evalExpr _ _ _ _ _
     rename_i v l
-    obtain ⟨b0, rfl⟩ := fits_bool (hfa.1 _ iha)
+    obtain ⟨b0, rfl⟩ := fit_bool (hfa.1 _ iha)
     cases b0
     · simp only []
       have ihb := ih.e rt sc b b' tb env l hf.2 hb hrt henv
       res_cases ihb of evalExpr _ _ _ _ _
       rename_i w l'
-      obtain ⟨b1, rfl⟩ := fits_bool (hfa.2 _ ihb)
-      simp only [Val.fitsType]
-    · simp only [Val.fitsType]
+      obtain ⟨b1, rfl⟩ := fit_bool (hfa.2 _ ihb)
+      exact fit_bool_mk
+    · exact fit_bool_mk
   | not a =>
     inv_low hl
     simp only [Option.map_eq_some_iff, Prod.mk.injEq] at hl
@@ -208,10 +696,11 @@ theorem snd_e {cx : LCtx} {p : Program} {n : Nat} (hC : Ctx cx p) (ih : Snd cx p
     simp only [evalExpr]
     res_cases iha of evalExpr _ _ _ _ _
     rename_i v l
-    obtain ⟨hb, rfl⟩ := fitsType_checkType hu rfl iha
-    obtain ⟨b0, rfl⟩ := fits_bool hb
+    obtain ⟨hb, rfl⟩ := fit_checkType hu rfl iha
+    obtain ⟨b0, rfl⟩ := fit_bool hb
     simp only []
-    rw [fits_bool_ty iha]; rfl
+    have hu' : u = .bool := fits_bool_ty iha.1
+    subst hu'; exact fit_bool_mk
   | ite c a b =>
     inv_low hl
     simp only [Option.map_eq_some_iff, Prod.mk.injEq] at hl
@@ -222,12 +711,12 @@ theorem snd_e {cx : LCtx} {p : Program} {n : Nat} (hC : Ctx cx p) (ih : Snd cx p
     simp only [evalExpr]
     res_cases ihc of evalExpr _ _ _ _ _
     rename_i v l
-    obtain ⟨b0, rfl⟩ := fits_bool (fitsType_of_fits hfit rfl ihc)
+    obtain ⟨b0, rfl⟩ := fit_bool (fit_of_fits hfit rfl ihc)
     cases b0
     · simp only []
-      exact (ih.e rt sc b b' tb env l hf.2 hb hrt henv).mono (fun v => (fitsType_unify hu).2) (fun _ h => h)
+      exact (ih.e rt sc b b' tb env l hf.2 hb hrt henv).mono (fun v => (fit_unify hu).2) (fun _ h => h)
     · simp only []
-      exact (ih.e rt sc a a' ta env l hf.1.2 ha hrt henv).mono (fun v => (fitsType_unify hu).1) (fun _ h => h)
+      exact (ih.e rt sc a a' ta env l hf.1.2 ha hrt henv).mono (fun v => (fit_unify hu).1) (fun _ h => h)
   | coalesce a b =>
     inv_low hl
     simp only [Option.map_eq_some_iff, Prod.mk.injEq] at hl
@@ -238,11 +727,11 @@ theorem snd_e {cx : LCtx} {p : Program} {n : Nat} (hC : Ctx cx p) (ih : Snd cx p
     simp only [evalExpr]
     res_cases iha of evalExpr _ _ _ _ _
     rename_i v l
-    rcases fits_optional iha with rfl | ⟨w, rfl, hw⟩
+    rcases fit_optional iha with rfl | ⟨w, rfl, hw⟩
     · simp only []
-      exact (ih.e rt sc b b' tb env l hf.2 hb hrt henv).mono (fun v => (fitsType_unify hu).2) (fun _ h => h)
+      exact (ih.e rt sc b b' tb env l hf.2 hb hrt henv).mono (fun v => (fit_unify hu).2) (fun _ h => h)
     · simp only []
-      exact (fitsType_unify hu).1 hw
+      exact (fit_unify hu).1 hw
   | is a s =>
     inv_low hl
     simp only [Option.some.injEq, Prod.mk.injEq] at hl
@@ -253,7 +742,7 @@ theorem snd_e {cx : LCtx} {p : Program} {n : Nat} (hC : Ctx cx p) (ih : Snd cx p
     simp only [evalExpr]
     res_cases iha of evalExpr _ _ _ _ _
     rename_i v l
-    rcases fits_optional iha with rfl | ⟨w, rfl, hw⟩ <;> simp only [Val.fitsType]
+    rcases fit_optional iha with rfl | ⟨w, rfl, hw⟩ <;> exact fit_bool_mk
   | eq a b | ne a b =>
     inv_low hl
     simp only [Option.map_eq_some_iff, Prod.mk.injEq] at hl
@@ -272,7 +761,7 @@ theorem snd_e {cx : LCtx} {p : Program} {n : Nat} (hC : Ctx cx p) (ih : Snd cx p
     obtain ⟨u, hu, rfl, rfl⟩ := hl
     rename_i a' ta b' tb ha hb
     simp only [fragE, Bool.and_eq_true] at hf
-    have hfa := fitsType_unifyAs hu rfl
+    have hfa := fit_unifyAs (p := p) hu rfl
     have iha := ih.e rt sc a a' ta env log hf.1 ha hrt henv
     simp only [evalExpr]
     res_cases iha of evalExpr _ _ _ _ _
@@ -280,9 +769,9 @@ theorem snd_e {cx : LCtx} {p : Program} {n : Nat} (hC : Ctx cx p) (ih : Snd cx p
     have ihb := ih.e rt sc b b' tb env l hf.2 hb hrt henv
     res_cases ihb of evalExpr _ _ _ _ _
     rename_i w l'
-    obtain ⟨i, rfl⟩ := fits_int (hfa.1 _ iha)
-    obtain ⟨j, rfl⟩ := fits_int (hfa.2 _ ihb)
-    try simp only [cmpInts, Val.fitsType]
+    obtain ⟨i, rfl⟩ := fit_int (hfa.1 _ iha)
+    obtain ⟨j, rfl⟩ := fit_int (hfa.2 _ ihb)
+    simp only [cmpInts]; exact fit_bool_mk
   | ret a =>
     inv_low hl
     simp only [Option.some.injEq, Prod.mk.injEq] at hl
@@ -292,7 +781,7 @@ theorem snd_e {cx : LCtx} {p : Program} {n : Nat} (hC : Ctx cx p) (ih : Snd cx p
     have iha := ih.e rt sc a a' ta env log hf ha hrt henv
     simp only [evalExpr]
     res_cases iha of evalExpr _ _ _ _ _
-    exact fitsType_of_fits hfit hrt iha
+    exact fit_of_fits hfit hrt iha
   | block ss a =>
     inv_low hl
     simp only [Option.some.injEq, Prod.mk.injEq] at hl
@@ -326,10 +815,10 @@ theorem snd_e {cx : LCtx} {p : Program} {n : Nat} (hC : Ctx cx p) (ih : Snd cx p
       obtain ⟨x, y, rfl⟩ := argsFit_two iha
       simp only [hb, if_true, intPair]
       rcases isBuiltin_cases hb with rfl | rfl | rfl | rfl
-      · rw [hr1 (Or.inl rfl)]; simp [builtinOp, builtinInstr, ROk, checked_fits]
-      · rw [hr2 (Or.inl rfl)]; simp [builtinOp, builtinInstr, ROk, Val.fitsType]
-      · rw [hr1 (Or.inr rfl)]; simp [builtinOp, builtinInstr, ROk, checked_fits]
-      · rw [hr2 (Or.inr rfl)]; simp [builtinOp, builtinInstr, ROk, Val.fitsType]
+      · rw [hr1 (Or.inl rfl)]; simp only [builtinOp, builtinInstr]; exact checked_fit _
+      · rw [hr2 (Or.inl rfl)]; simp only [builtinOp, builtinInstr]; exact fit_int_mk
+      · rw [hr1 (Or.inr rfl)]; simp only [builtinOp, builtinInstr]; exact checked_fit _
+      · rw [hr2 (Or.inr rfl)]; simp only [builtinOp, builtinInstr]; exact fit_int_mk
     · simp only [Bool.not_eq_true] at hb
       obtain ⟨fd, hfd, rfl, rfl, hok⟩ := hC.hcall f g params rt' hb hsig
       have iha := ih.args rt sc _ args args' env log hf hlen' hargs
@@ -338,12 +827,109 @@ theorem snd_e {cx : LCtx} {p : Program} {n : Nat} (hC : Ctx cx p) (ih : Snd cx p
       rename_i vs l
       simp only [hb, Bool.false_eq_true, if_false]
       exact (ih.call f fd vs l hfd hok iha).mono (fun _ h => h) (fun _ h => h.elim)
-  | ffi _ _ _ _ | struct _ _ _ | dot _ _ | cast _ _ | substruct _ _ | mtch _ _ => simp [fragE] at hf
+  | ffi mname fname ids args =>
+    inv_low hl
+    simp only [Option.some.injEq, Prod.mk.injEq] at hl
+    obtain ⟨rfl, rfl⟩ := hl
+    rename_i _ _ mi _ _ m fns hmod _ pi _ _ sig hsig hlen _ args' hargs
+    simp only [fragE] at hf
+    have hlen' : sig.args.length = args.length := by
+      simp only [bne_iff_ne, ne_eq, Decidable.not_not] at hlen; exact hlen
+    obtain ⟨hnf, hcontract⟩ := hC.hffi mi pi m fns sig hmod hsig
+    have iha := ih.args rt sc _ args args' env log hf hlen' hargs hnf hrt henv
+    simp only [evalExpr]
+    res_cases iha of evalArgs _ _ _ _ _
+    rename_i vs l
+    have hc := hcontract vs iha
+    revert hc
+    cases p.ffi mi pi vs <;> simp [ROk, FitV]
+  | dot a f =>
+    inv_low hl
+    simp only [Option.map_eq_some_iff, Prod.mk.injEq] at hl
+    obtain ⟨ft, hft, rfl, rfl⟩ := hl
+    rename_i a' sn ha _ d hd
+    simp only [fragE] at hf
+    have iha := ih.e rt sc a a' _ env log hf ha hrt henv
+    simp only [evalExpr]
+    res_cases iha of evalExpr _ _ _ _ _
+    rename_i v l
+    obtain ⟨fs, rfl, ⟨d', hd', hall⟩, hwf⟩ := fit_struct iha
+    have hpd := hC.hS sn d hd
+    rw [hpd] at hd'; cases hd'
+    have hmem := List.mem_of_find?_eq_some hft
+    have hk : ft.1 = f := by have := List.find?_some hft; simpa using this
+    obtain ⟨w, hw, hwfit⟩ := hall ft hmem
+    rw [hk] at hw
+    simp only [hw]
+    exact ⟨hwfit, wfFields_get hwf hw⟩
+  | struct name fields sources =>
+    simp only [fragE, Bool.and_eq_true, List.isEmpty_iff] at hf
+    obtain ⟨rfl, hff⟩ := hf
+    inv_low hl
+    all_goals (try (simp at *; done))
+    simp only [Option.some.injEq, Prod.mk.injEq] at hl
+    obtain ⟨rfl, rfl⟩ := hl
+    rename_i d hd _ hchk _ fs' hlf
+    simp only [Bool.or_eq_true, not_or, Bool.not_eq_true, Bool.not_eq_eq_eq_not, Bool.not_true, Bool.not_false] at hchk
+    have hpd := hC.hS name d hd
+    have hnd := hC.hSnd name d hpd
+    have ihf := ih.flds rt sc d fields fs' env log name [] hff hlf (hC.hSnf name d hpd) hrt henv
+      ⟨by simp [wfFields], by intro k v h; simp [getField] at h⟩
+    simp only [evalExpr, hpd]
+    res_cases ihf of evalFields _ _ _ _ _ _ _
+    obtain ⟨fsF, rfl, hinv, hpres⟩ := ihf
+    refine ⟨by simp [Val.fitsType], ?_⟩
+    simp only [Val.wf]
+    refine ⟨⟨d, hpd, ?_⟩, hinv.1⟩
+    intro q hq
+    have hq1 : q.1 ∈ fs'.map (·.1) := by
+      rw [lowerFields_keys hlf]
+      have hall : (d.all fun f => fields.any fun x => x.fst == f.fst) = true := by
+        cases hx : (d.all fun f => fields.any fun x => x.fst == f.fst)
+        · exact absurd hx hchk.2
+        · rfl
+      have := List.all_eq_true.mp hall q hq
+      obtain ⟨x, hx, hxq⟩ := List.any_eq_true.mp this
+      exact List.mem_map.mpr ⟨x, hx, beq_iff_eq.mp hxq⟩
+    have hsome := hpres q.1 (Or.inr hq1)
+    obtain ⟨w, hw⟩ := Option.isSome_iff_exists.mp hsome
+    exact ⟨w, hw, hinv.2 q.1 w hw q (findTy_of_nodup hnd hq)⟩
+  | mtch scrut arms =>
+    inv_low hl
+    simp only [Option.some.injEq, Prod.mk.injEq] at hl
+    obtain ⟨rfl, rfl⟩ := hl
+    rename_i _ _ _ _ _ scrut' st0 hscrut _ _ stF ty arms' harms _
+    simp only [fragE, Bool.and_eq_true] at hf
+    obtain ⟨⟨hfs, hfa⟩, hend⟩ := hf
+    have ihs := ih.e rt sc scrut scrut' st0 env log hfs hscrut hrt henv
+    simp only [evalExpr]
+    res_cases ihs of evalExpr _ _ _ _ _
+    rename_i v l
+    have hpl := armsE_patsLow arms st0 none stF (some ty) arms' harms hfa
+    have ihsel := ih.sel rt sc st0 _ _ env l v 0 hpl (endsDefaultE_P arms hend) hrt henv
+    res_cases ihsel of selectArm _ _ _ _ _ _ _
+    rename_i j l'
+    obtain ⟨i, pat', rfl, hi, hbind⟩ := ihsel
+    simp only [Nat.zero_add]
+    rw [List.getElem?_map] at hi
+    cases harm : arms'[i]? with
+    | none => rw [harm] at hi; cases hi
+    | some arm =>
+      obtain ⟨pat1, body'⟩ := arm
+      rw [harm] at hi
+      simp only [Option.map_some, Option.some.injEq] at hi; subst hi
+      obtain ⟨pat, body, sti, sti', bs, sc', bt, hpat, hfp, hfb, hmono, hsc, hbody, tF, htF, hres⟩ :=
+        armsE_get (p := p) arms st0 none stF (some ty) arms' i pat1 body' harms hfa harm
+      simp only [Option.some.injEq] at htF; subst htF
+      obtain ⟨env', hba, henv'⟩ := bindArm_ok (p := p) (hC.hG.withRet rt) hpat hfp hsc (hmono v ihs) hbind henv
+      simp only [hba]
+      exact (ih.e rt sc' body body' bt env' l' hfb hbody hrt henv').mono (fun v hv => hres v hv) (fun _ h => h)
+  | cast _ _ | substruct _ _ => simp [fragE] at hf
 
 theorem snd_args {cx : LCtx} {p : Program} {n : Nat} (ih : Snd cx p n) :
     ∀ rt sc pts es es' env log, fragArgs es = true → pts.length = es.length →
     lowerArgs (cx.withRet rt) sc pts es = some es' → (∀ t ∈ pts, t.neverFree = true) → rt.neverFree = true →
-    EnvOk sc env → ROk (fun vs => ArgsFit vs pts) (FitV rt) (evalArgs p (n + 1) env log es') := by
+    EnvOk p sc env → ROk (fun vs => ArgsFit p vs pts) (FitV p rt) (evalArgs p (n + 1) env log es') := by
   intro rt sc pts es es' env log hf hlen hl hnf hrt henv
   match es, pts, hlen, hl, hf, hnf with
   | [], [], _, hl, _, _ =>
@@ -365,11 +951,11 @@ theorem snd_args {cx : LCtx} {p : Program} {n : Nat} (ih : Snd cx p n) :
     have ihr := ih.args rt sc pts es r env l hf.2 hlen hr (fun t ht => hnf t (List.mem_cons_of_mem _ ht)) hrt henv
     res_cases ihr of evalArgs _ _ _ _ _
     simp only [ArgsFit]
-    exact ⟨fitsType_of_fits hfit (hnf pt (List.mem_cons_self ..)) ihe, ihr⟩
+    exact ⟨fit_of_fits hfit (hnf pt (List.mem_cons_self ..)) ihe, ihr⟩
 
 theorem snd_ss {cx : LCtx} {p : Program} {n : Nat} (ih : Snd cx p n) :
     ∀ rt sc ss ss' sc' env log, fragSs ss = true → lowerStmts (cx.withRet rt) sc ss = some (ss', sc') → rt.neverFree = true →
-    EnvOk sc env → ROk (fun env' => EnvOk sc' env') (FitV rt) (evalStmts p (n + 1) env log ss') := by
+    EnvOk p sc env → ROk (fun env' => EnvOk p sc' env') (FitV p rt) (evalStmts p (n + 1) env log ss') := by
   intro rt sc ss ss' sc' env log hf hl hrt henv
   cases ss with
   | nil =>
@@ -392,7 +978,7 @@ theorem snd_ss {cx : LCtx} {p : Program} {n : Nat} (ih : Snd cx p n) :
 
 theorem snd_s {cx : LCtx} {p : Program} {n : Nat} (hC : Ctx cx p) (ih : Snd cx p n) :
     ∀ rt sc s s' sc' env log, fragS s = true → lowerStmt (cx.withRet rt) sc s = some (s', sc') → rt.neverFree = true →
-    EnvOk sc env → ROk (fun env' => EnvOk sc' env') (FitV rt) (evalStmt p (n + 1) env log s') := by
+    EnvOk p sc env → ROk (fun env' => EnvOk p sc' env') (FitV p rt) (evalStmt p (n + 1) env log s') := by
   intro rt sc s s' sc' env log hf hl hrt henv
   cases s with
   | let_ x e =>
@@ -405,7 +991,7 @@ theorem snd_s {cx : LCtx} {p : Program} {n : Nat} (hC : Ctx cx p) (ih : Snd cx p
     simp only [evalStmt]
     res_cases ihe of evalExpr _ _ _ _ _
     rename_i v l
-    obtain ⟨env1, hb, henv1⟩ := scopeAdd_bindVar (p := p) (cx := cx.withRet rt) hC.hg hC.hpg henv ha ihe
+    obtain ⟨env1, hb, henv1⟩ := scopeAdd_bindVar (p := p) (cx := cx.withRet rt) (hC.hG.withRet rt) henv ha ihe
     simp only [hb]; exact henv1
   | check c els =>
     inv_low hl
@@ -419,12 +1005,12 @@ theorem snd_s {cx : LCtx} {p : Program} {n : Nat} (hC : Ctx cx p) (ih : Snd cx p
     simp only [evalStmt]
     res_cases ihc of evalExpr _ _ _ _ _
     rename_i v l
-    obtain ⟨b0, rfl⟩ := fits_bool (fitsType_of_fits hfit rfl ihc)
+    obtain ⟨b0, rfl⟩ := fit_bool (fit_of_fits hfit rfl ihc)
     cases b0
     · simp only []
       have ihe := ih.e rt sc els e1 .never env l hf.2 he hrt henv
       res_cases ihe of evalExpr _ _ _ _ _
-      rw [fitsType_never] at ihe; cases ihe
+      exact (fit_never ihe).elim
     · simp only []; exact henv
   | ret e =>
     inv_low hl
@@ -435,7 +1021,7 @@ theorem snd_s {cx : LCtx} {p : Program} {n : Nat} (hC : Ctx cx p) (ih : Snd cx p
     have ihe := ih.e rt sc e e1 t1 env log hf he hrt henv
     simp only [evalStmt]
     res_cases ihe of evalExpr _ _ _ _ _
-    exact fitsType_of_fits hfit hrt ihe
+    exact fit_of_fits hfit hrt ihe
   | dassert e =>
     inv_low hl
     simp only [Option.map_eq_some_iff, Prod.mk.injEq] at hl
@@ -446,7 +1032,7 @@ theorem snd_s {cx : LCtx} {p : Program} {n : Nat} (hC : Ctx cx p) (ih : Snd cx p
     simp only [evalStmt]
     res_cases ihe of evalExpr _ _ _ _ _
     rename_i v l
-    obtain ⟨b0, rfl⟩ := fits_bool (fitsType_checkType hu rfl ihe).1
+    obtain ⟨b0, rfl⟩ := fit_bool (fit_checkType hu rfl ihe).1
     cases b0 <;> simp only []
     exact henv
   | ifS brs hasElse els =>
@@ -466,11 +1052,46 @@ theorem snd_s {cx : LCtx} {p : Program} {n : Nat} (hC : Ctx cx p) (ih : Snd cx p
         obtain ⟨rfl, rfl⟩ := hl
         simp only [evalStmt]
         exact ih.br rt sc brs bs' false els [] env log hf.1 hf.2 hb (fun h => by cases h) hrt henv
-  | mtch _ _ => simp [fragS] at hf
+  | mtch scrut arms =>
+    inv_low hl
+    simp only [Option.some.injEq, Prod.mk.injEq] at hl
+    obtain ⟨rfl, rfl⟩ := hl
+    rename_i _ _ _ _ _ scrut' st0 hscrut _ _ stF arms' harms _
+    simp only [fragS, Bool.and_eq_true] at hf
+    obtain ⟨⟨hfs, hfa⟩, hend⟩ := hf
+    have ihs := ih.e rt sc scrut scrut' st0 env log hfs hscrut hrt henv
+    simp only [evalStmt]
+    res_cases ihs of evalExpr _ _ _ _ _
+    rename_i v l
+    have hpl := armsS_patsLow arms st0 stF arms' harms hfa
+    have ihsel := ih.sel rt sc st0 _ _ env l v 0 hpl (endsDefaultS_P arms hend) hrt henv
+    res_cases ihsel of selectArm _ _ _ _ _ _ _
+    rename_i j l'
+    obtain ⟨i, pat', rfl, hi, hbind⟩ := ihsel
+    simp only [Nat.zero_add]
+    rw [List.getElem?_map] at hi
+    cases harm : arms'[i]? with
+    | none => rw [harm] at hi; cases hi
+    | some arm =>
+      obtain ⟨pat1, body'⟩ := arm
+      rw [harm] at hi
+      simp only [Option.map_some, Option.some.injEq] at hi; subst hi
+      obtain ⟨pat, body, sti, sti', bs, sc', scB, hpat, hfp, hfb, hmono, hsc, hbody⟩ :=
+        armsS_get (p := p) arms st0 stF arms' i pat1 body' harms hfa harm
+      obtain ⟨env', hba, henv'⟩ := bindArm_ok (p := p) (hC.hG.withRet rt) hpat hfp hsc (hmono v ihs) hbind henv
+      simp only [hba]
+      obtain ⟨b1, rfl⟩ := scopeAdd_fold_tail bs hsc
+      obtain ⟨b2, rfl⟩ := lowerStmts_tail body hbody
+      have ihb := ih.ss rt _ body body' _ env' l' hfb hbody hrt henv'
+      res_cases ihb of evalStmts _ _ _ _ _
+      rename_i env2 l2
+      cases env2 with
+      | nil => simp [EnvOk] at ihb
+      | cons eb rest => simp only [EnvOk] at ihb; exact ihb.2
 
 theorem snd_scp {cx : LCtx} {p : Program} {n : Nat} (ih : Snd cx p n) :
     ∀ rt sc ss ss' sc' env log, fragSs ss = true → lowerStmts (cx.withRet rt) ([] :: sc) ss = some (ss', sc') → rt.neverFree = true →
-    EnvOk sc env → ROk (fun env' => EnvOk sc env') (FitV rt) (evalScoped p (n + 1) env log ss') := by
+    EnvOk p sc env → ROk (fun env' => EnvOk p sc env') (FitV p rt) (evalScoped p (n + 1) env log ss') := by
   intro rt sc ss ss' sc' env log hf hl hrt henv
   obtain ⟨b', rfl⟩ := lowerStmts_tail ss hl
   have ihs := ih.ss rt ([] :: sc) ss ss' _ ([] :: env) log hf hl hrt (by simp only [EnvOk, BlockOk]; exact ⟨trivial, henv⟩)
@@ -485,7 +1106,7 @@ theorem snd_br {cx : LCtx} {p : Program} {n : Nat} (ih : Snd cx p n) :
     ∀ rt sc brs brs' (hasElse : Bool) els els' env log, fragBrs brs = true → fragSs els = true →
     lowerBranches (cx.withRet rt) sc brs = some brs' →
     (hasElse = true → ∃ scE, lowerStmts (cx.withRet rt) ([] :: sc) els = some (els', scE)) → rt.neverFree = true →
-    EnvOk sc env → ROk (fun env' => EnvOk sc env') (FitV rt) (evalBranches p (n + 1) env log brs' hasElse els') := by
+    EnvOk p sc env → ROk (fun env' => EnvOk p sc env') (FitV p rt) (evalBranches p (n + 1) env log brs' hasElse els') := by
   intro rt sc brs brs' hasElse els els' env log hfb hfe hl hE hrt henv
   cases brs with
   | nil =>
@@ -510,7 +1131,7 @@ theorem snd_br {cx : LCtx} {p : Program} {n : Nat} (ih : Snd cx p n) :
     simp only [evalBranches]
     res_cases ihc of evalExpr _ _ _ _ _
     rename_i v l
-    obtain ⟨b0, rfl⟩ := fits_bool (fitsType_of_fits hfit rfl ihc)
+    obtain ⟨b0, rfl⟩ := fit_bool (fit_of_fits hfit rfl ihc)
     cases b0
     · simp only []
       exact ih.br rt sc rest r hasElse els els' env l hfb.2 hfe hr hE hrt henv
@@ -518,22 +1139,78 @@ theorem snd_br {cx : LCtx} {p : Program} {n : Nat} (ih : Snd cx p n) :
       exact ih.scp rt sc ss ss1 scS env l hfb.1.2 hs hrt henv
 
 theorem snd_call {cx : LCtx} {p : Program} {n : Nat} (hC : Ctx cx p) (ih : Snd cx p n) :
-    ∀ f fd vs log, p.funDef f = some fd → FunOk cx fd → ArgsFit vs (fd.params.map (·.2)) →
-    ROk (FitV fd.ret) (fun _ => False) (evalCall p (n + 1) f vs log) := by
+    ∀ f fd vs log, p.funDef f = some fd → FunOk cx fd → ArgsFit p vs (fd.params.map (·.2)) →
+    ROk (FitV p fd.ret) (fun _ => False) (evalCall p (n + 1) f vs log) := by
   intro f fd vs log hfd hok hfit
   obtain ⟨hnr, hnp, sc0, body0, sc1, hsc0, hbody, hfrag⟩ := hok
   have hlen := argsFit_length hfit
   simp only [List.length_map] at hlen
   have hrev : ((fd.params.map (·.1)).zip vs).reverse = ((fd.params.reverse).map (·.1)).zip vs.reverse := by
     rw [List.zip_eq_zipWith, List.reverse_zipWith (by simp [hlen]), List.map_reverse, ← List.zip_eq_zipWith]
-  obtain ⟨env0, hbp, henv0⟩ := bind_params (p := p) hC.hg hC.hpg fd.params.reverse vs.reverse [[]] [[]] sc0
+  obtain ⟨env0, hbp, henv0⟩ := bind_params (p := p) hC.hG fd.params.reverse vs.reverse [[]] [[]] sc0
     (by simp [EnvOk, BlockOk]) hsc0 (by rw [List.map_reverse]; exact argsFit_reverse hfit)
   simp only [evalCall, hfd, ne_eq, hlen.symm, not_true_eq_false, if_false, hrev, hbp]
   have ihs := ih.ss fd.ret sc0 body0 fd.body sc1 env0 log hfrag hbody hnr henv0
   res_cases ihs of evalStmts _ _ _ _ _
 
+theorem snd_flds {cx : LCtx} {p : Program} {n : Nat} (ih : Snd cx p n) :
+    ∀ rt sc d fs fs' env log name afs, fragFields fs = true → lowerFields (cx.withRet rt) sc d fs = some fs' →
+    (∀ q ∈ d, q.2.neverFree = true) → rt.neverFree = true → EnvOk p sc env → FldInv p d afs →
+    ROk (fun v => ∃ fsF, v = .struct name fsF ∧ FldInv p d fsF ∧
+        ∀ k, ((getField afs k).isSome = true ∨ k ∈ fs'.map (·.1)) → (getField fsF k).isSome = true) (FitV p rt)
+      (evalFields p (n + 1) env log d fs' (.struct name afs)) := by
+  intro rt sc d fs fs' env log name afs hf hl hnf hrt henv hinv
+  cases fs with
+  | nil =>
+    simp only [lowerFields, Option.some.injEq] at hl; subst hl
+    simp only [evalFields, ROk]
+    exact ⟨afs, rfl, hinv, by intro k hk; simpa using hk⟩
+  | cons fe rest =>
+    obtain ⟨k, e⟩ := fe
+    simp only [lowerFields] at hl
+    repeat' (split at hl)
+    all_goals (try (cases hl; done))
+    simp only [Option.map_eq_some_iff] at hl
+    obtain ⟨r, hr, rfl⟩ := hl
+    rename_i k' ft hfind _ e1 t1 he hfit
+    simp only [fragFields, Bool.and_eq_true] at hf
+    have ihe := ih.e rt sc e e1 t1 env log hf.1 he hrt henv
+    simp only [evalFields]
+    res_cases ihe of evalExpr _ _ _ _ _
+    rename_i v l
+    have hany : d.any (·.1 == k) = true := by
+      rw [List.any_eq_true]; exact ⟨_, List.mem_of_find?_eq_some hfind, by have := List.find?_some hfind; simpa using this⟩
+    simp only [hany, if_true]
+    have hvfit : v.fitsType ft = true :=
+      fitsType_of_fits hfit (hnf _ (List.mem_of_find?_eq_some hfind)) ihe.1
+    have hinv' : FldInv p d (setField afs k v) := by
+      refine ⟨wfFields_set hinv.1 ihe.2, ?_⟩
+      intro k2 w hw q hq
+      by_cases hk : k2 = k
+      · subst hk
+        rw [getField_setField_same] at hw
+        simp only [Option.some.injEq] at hw; subst hw
+        rw [hfind] at hq; cases hq; exact hvfit
+      · rw [getField_setField_other _ _ _ _ hk] at hw
+        exact hinv.2 k2 w hw q hq
+    have ihr := ih.flds rt sc d rest r env l name (setField afs k v) hf.2 hr hnf hrt henv hinv'
+    refine ihr.mono ?_ (fun _ h => h)
+    rintro x ⟨fsF, rfl, hF, hpres⟩
+    refine ⟨fsF, rfl, hF, ?_⟩
+    intro k2 hk2
+    apply hpres
+    by_cases hk : k2 = k
+    · subst hk; left; rw [getField_setField_same]; rfl
+    · rcases hk2 with h | h
+      · left; rw [getField_setField_other _ _ _ _ hk]; exact h
+      · right
+        simp only [List.map_cons, List.mem_cons] at h
+        rcases h with h | h
+        · exact absurd h hk
+        · exact h
+
 theorem snd_succ {cx : LCtx} {p : Program} {n : Nat} (hC : Ctx cx p) (ih : Snd cx p n) : Snd cx p (n + 1) :=
-  ⟨snd_e hC ih, snd_args ih, snd_ss ih, snd_s hC ih, snd_scp ih, snd_br ih, snd_call hC ih⟩
+  ⟨snd_e hC ih, snd_args ih, snd_ss ih, snd_s hC ih, snd_scp ih, snd_br ih, snd_flds ih, snd_mv ih, snd_sel ih, snd_call hC ih⟩
 
 theorem snd_all {cx : LCtx} {p : Program} (hC : Ctx cx p) : ∀ n, Snd cx p n
   | 0 => snd_zero cx p
